@@ -255,6 +255,19 @@ PROPS["C12"] = {
     "assumptions": ["semantically wrong but well-formed responses (a response kind that does not match the operation) are capability-crate developer errors, not this property"],
 }
 
+PROPS["C13"] = {
+    "level": "exploration",
+    "level_text": "bounded restatement (a finite run cannot observe 'unbounded'): for 15 repeated patterns over K cycles (request/response cycles through both APIs and both bridges, a one-shot answered with garbage, timers set/fire, set/clear/fire, fire/late-clear, renders, subscribe/one item/consumer ends over bridge and core, sibling tasks with one request dropped and the other resolved before the core runs again, a long-lived command extended from outside) the occupancy of the bridge registry (by kind), the core's executor, the command's task slab and the cleared-timer set - read through the crux_verif hooks with nothing outstanding at cycles 1, K/2 and K - did not grow, except for the listed known findings. Held values of finished / cancelled / aborted-before-first-poll tasks are covered by the drop-counter ledger of the cmdlab checks (C04/C06/C07, signature held-value/not-released).",
+    "level_note": "legacy-API tasks whose request is dropped are excluded (the legacy executor has no cancellation; the property's mechanisms are anchored in command/executor.rs); growth is judged between K/2 and K so warm-up effects cannot raise an alarm",
+    "technique": "occupancy monitor over long repeated histories (hooked registries / slabs / sets) + drop counters",
+    "rule": "pattern x K cycles (K = 2000 quick, 200000 thorough); non-trivial = pattern whose five occupancy quantities stayed flat; distinct = (pattern, K)",
+    "lanes": [caplab("occlab", 4, 16)],
+    "floors": {"quick": {"evaluations": 15, "distinct_nontrivial": 10, "cycles_run": 30000},
+               "thorough": {"evaluations": 15, "distinct_nontrivial": 10, "cycles_run": 3000000}},
+    "must_cover": {"patterns": ["kv-cycle(command api)", "kv-cycle(capability api)", "render(command api)", "timer-set-fire(command api)", "subscribe-one-item-consumer-ends(bridge)", "subscribe-one-item-consumer-ends(core)", "one-shot-answered-with-garbage", "sibling-tasks-drop-one-resolve-other(core)", "long-lived-command-extended-repeatedly(direct)"]},
+    "assumptions": [],
+}
+
 ENGINES = [
     {"name": "cmdlab", "path": "harness/cmdlab", "serves_properties": ["C01", "C02", "C03", "C04", "C05", "C06", "C07", "C09"],
      "kind_free_text": "random program generator + executable reference model of command semantics + hosts (direct, stream-polled, nested, Core, legacy, bincode/JSON bridge) run in lock-step on the real crux code"},
@@ -266,5 +279,5 @@ ENGINES = [
 
 NOT_APPLICABLE = [
     {"property_id": p, "reason": "check not built yet in this session (see DESIGN.md); to be claimed once its engine exists"}
-    for p in ["C11", "C13", "C20"]
+    for p in ["C11", "C20"]
 ]
